@@ -3,6 +3,7 @@ package memory
 import (
 	"errors"
 	"io"
+	"math"
 	"sync"
 
 	storelib "github.com/uber/kraken/lib/store"
@@ -127,6 +128,10 @@ func (f *File) Size() int64 {
 func (f *File) WriteAt(p []byte, off int64) (n int, err error) {
 	if off < 0 {
 		return 0, errors.New("negative offset")
+	}
+	if off > int64(math.MaxInt-len(p)) {
+		// int(off)+len(p) would wrap around and the slice expression below would panic.
+		return 0, errors.New("offset too large")
 	}
 
 	f.sliceMu.Lock()
